@@ -129,6 +129,26 @@ def prepare_examples(ctx, extreme_rain=True):
             sl[i] = l[:62] + "10" + l[64:67] + "0.3" + "06" + l[72:]
             break
     open(sp, "w").write("\n".join(sl))
+    # a profile of only two 10-cm layers (every shipped soil has at least three): soil 902 of project ex1
+    sl2 = open(sp).read().split("\n")
+    first = [l for l in sl2 if l.startswith("041 ") and len(l) >= 72 and l[13:15] == "03"][0]
+    # (capacities from the texture table: the FC/WP/PS columns are left blank, so Hydro is called for it)
+    thin = "902" + first[3:13] + "02" + first[15:32] + "02 01" + first[37:40] + "        " + first[48:]
+    endi = [i for i, l in enumerate(sl2) if l.strip() == "end"]
+    sl2.insert(endi[0] if endi else len(sl2), thin)
+    open(sp, "w").write("\n".join(sl2))
+    # a legume harvested while it is still fixing, followed by a non-legume: the 1981 soybean of field SOYSM1 is cut in July
+    cpc = os.path.join(ex, "project", "ex1", "crop_ex1.csv")
+    cl = open(cpc).read().split("\n")
+    for i, l in enumerate(cl):
+        if l.startswith("SOYSM1,SOY,05151981,09311981"):
+            cl[i] = "SOYSM1,SOY,05151981,07201981" + l[28:]
+    open(cpc, "w").write("\n".join(cl))
+    # a SPARSE groundwater time series of a constant level inside the profile (days between the observations are interpolated)
+    gp = os.path.join(ex, "project", "ex3", "gw_ex3.csv")
+    g3 = open(gp).read().rstrip("\n")
+    g3 += "\nK12,01011979,12\nK12,06011981,12\nK12,03151984,12\nK12,12312000,12\n"
+    open(gp, "w").write(g3)
     # irrigation from file with an entry dated before the simulation start and differing N concentrations (all
     # shipped polygons have Ir = 0): plot 10002 of project ex1
     pp = os.path.join(ex, "project", "ex1", "poly_ex1.txt")
@@ -143,18 +163,20 @@ def prepare_examples(ctx, extreme_rain=True):
         "SMSOY2    20  50 06151980\nSMSOY2    15   0 07101980\nSMSOY2    15  35 06201981\nSMSOY2    25  10 07051982\n"
         "SMSOY2    18  45 06121984\nSMSOY2    22   5 07011987\nSMSOY2    16  60 06251990\nend\n")
     # a stand whose roots reach the last (20th) layer (shipped soils stop at 13-15 dm, shipped rotations of myP are
-    # maize/soy): project myP gets soil 075 with RootDepth 20 and winter wheat from the second year on
+    # maize/soy): project myP gets soil 075 with RootDepth 20 and winter wheat from the second year on; the csv soil table
+    # also carries a drain at 10 dm with the share written as a percentage (40) and every other tillage is a shallow
+    # 3 cm pass (less than half a layer: round(depth/10) = 0 layers are mixed)
     mp = os.path.join(ex, "project", "myP")
     open(os.path.join(mp, "soil_myP.csv"), "w").write(
         "SID,C_org,Texture,LayerDepth,BulkDensityClass,Stone,C/N,C/S,RootDepth,NumberHorizon,FieldCapacity,WiltingPoint,PoreVolume,Sand,Silt,Clay,DrainageDepth,Drainage%,GroundWaterLevel\n"
-        "075,0.90,SL2,03,3,00,10,00,20,02,22,09,38,73,21,06,20,00,99\n"
+        "075,0.90,SL2,03,3,00,10,00,20,02,22,09,38,73,21,06,10,40,99\n"
         "075,0.30,SL4,20,3,00,10,00,,,22,12,43,61,27,12,20,00,   \n")
     open(os.path.join(mp, "crop_myP.txt"), "w").write(
         "Field_ID    crp  sowing harvst Rex yld autorg variety comment\n"
         "SOYSM1    SM  05151980 09311980 080 050 0 \n" +
         "".join("SOYSM1    WW  1010%d 0810%d 000 000 0 \n" % (y, y + 1) for y in range(1980, 1998)) + "end\n")
     open(os.path.join(mp, "til_myP.txt"), "w").write(
-        "Field_ID  Ti Typ date\n          cm\n" + "".join("SOYSM1     5 1   0901%d\n" % y for y in range(1981, 1998)) + "end\n")
+        "Field_ID  Ti Typ date\n          cm\n" + "".join("SOYSM1     %d 1   0901%d\n" % (3 if y % 2 == 0 else 5, y) for y in range(1981, 1998)) + "end\n")
     open(os.path.join(mp, "fert_myP.txt"), "w").write(
         "Field_ID  N   Frt date\n" + "".join("SOYSM1    120 RM  0320%d\n" % y for y in range(1981, 1998)) + "end\n")
     if extreme_rain:
@@ -190,6 +212,8 @@ TRACE_LINES = [
     ("project=myP WeatherFolder=extreme soilId=075 plotNr=10001 Altitude=73 Latitude=52.6732 poligonID=29872 ETpot=2 AutoIrrigation=0", "EN"),
     # a peat soil (top texture 'H...': run.go takes Denitmo instead of Denitr) under the per-year weather layout, with frost days
     ("project=MUN WeatherFolder=MUN soilId=011 fcode=NEU plotNr=00006 Altitude=55 Latitude=54.00 poligonID=MUN parameter=./parameter StartYear=2009", "DE"),
+    ("project=ex1 WeatherFolder=historical soilId=902 fcode=109_120 plotNr=10001 Altitude=73 Latitude=52.6732 poligonID=29872", "EN"),
+    ("project=ex3 WeatherFolder=historical soilId=075 gwId=K12 fcode=109_120 plotNr=10001 Altitude=73 Latitude=52.6732 poligonID=29872", "EN"),
     ("project=bulk WeatherFolder=extreme soilId=002 fcode=109_120 plotNr=10001 Altitude=73 Latitude=52.6732 poligonID=29872", "EN"),
     ("project=rue WeatherFolder=historical fcode=109_121 plotNr=10002 soilId=001 Altitude=46 Latitude=52.6431 poligonID=30169", "DE"),
     ("project=ex1 WeatherFolder=extreme soilId=041 fcode=109_121 plotNr=10001 Altitude=73 Latitude=52.6680 poligonID=29876 ETpot=1", "EN"),
@@ -220,7 +244,7 @@ def run_trace(ctx, water_every=None):
     """traced runs of shipped projects (scratch copy) -> (rc, cases, oracle lines, stderr)"""
     import os
     ex = prepare_examples(ctx)
-    nl, endy = (10, 1995) if ctx.thorough else (7, 1982)
+    nl, endy = (12, 1995) if ctx.thorough else (9, 1982)
     lf = os.path.join(ctx.work, "trace_lines.txt")
     with open(lf, "w") as f:
         f.write("\n".join(trace_lines(ctx, nl, endy)) + "\n")
